@@ -113,7 +113,8 @@ theorem checked_tracks_sources (S0 : Sources Mod Content) (ops : List (Op Mod Co
 
 /-- **The LSP handlers have the file-system effect of the notifications** (`main.rs`
 did_change / did_create_files / did_rename_files / did_delete_files → update / rename_module /
-remove), deletes of files the server has never heard of (mapped to ROOT) included. -/
+remove), deletes of files the server has never heard of (mapped to ROOT) and documents outside of the
+source directory (skipped, fix d68f1d6) included. -/
 theorem lsp_glue_file_view (S : Sources Mod Content) (evs : List (Event Mod Content))
     (h : ∀ ev ∈ evs, EventNoRoot ck.root ev) :
     applyOps ck.root (evs.map (glue ck.root)) S = applyEvents ck.root evs S :=
@@ -230,9 +231,11 @@ example :
   decide
 
 /-- LSP glue: deleting a file the server has never heard of (and one it knows) after a rename. -/
-example : applyEvents 99 [.didRename [(1, 3)], .didDelete [none, some 2], .didChange 4 [3],
-      .didCreate [(5, none), (6, some [])]] [(1, []), (2, [3])]
+example : applyEvents 99 [.didRename [(some 1, some 3), (some 2, none)], .didDelete [none, some 2],
+      .didChange (some 4) [3], .didChange none [], .didCreate [(some 5, none), (none, some []), (some 6, some [])]]
+      [(1, []), (2, [3])]
     = [(6, []), (4, [3]), (3, [])] := by decide
+example : glue 99 (.didChange none [1] : Event Nat (List Nat)) = .update [] := rfl
 example : glue 99 (.didDelete [none, some 2] : Event Nat (List Nat)) = .remove [99, 2] := rfl
 
 /-- `transitive_is_reachability` on a cyclic graph with a missing node. -/
